@@ -175,6 +175,8 @@ fn exec(ctx: &mut Ctx, sc: &mut dyn ScopeOps, orig: Option<&dyn ScopeOps>, depth
             k += 1;
         }
         let before_alloc = sc.x_dump().typed.allocated;
+        // a collection created on a still unallocated arena (its first chunk is made by the prepare)
+        let k = if ctx.prof.name == "prepared" && sc.x_dump().cur.is_none() && !sc.x_is_claimed() && ctx.rng.chance(1, 2) { 5 } else { k };
         match k {
             0 => op_allocate(ctx, sc),
             1 => op_dealloc(ctx, sc),
@@ -436,11 +438,13 @@ fn op_shrink_slice(ctx: &mut Ctx, sc: &mut dyn ScopeOps, b: Blk) {
 
 fn op_typed(ctx: &mut Ctx, sc: &mut dyn ScopeOps) {
     // entry point: try_ method, trait object, or (only when no base-allocator failure can occur) the panicking twin
-    let mode: u8 = match ctx.rng.below(8) {
+    let mode: u8 = match ctx.rng.below(10) {
         0 | 1 => 1,
         2 | 3 if !ctx.fail_injected => 2,
+        4 | 5 => 3, // slices only: `try_allocate_slice_for`
         _ => 0,
     };
+    let mode_plain = if mode == 3 { 0 } else { mode };
     let dy = mode == 1;
     match ctx.rng.below(3) {
         0 => {
@@ -448,8 +452,8 @@ fn op_typed(ctx: &mut Ctx, sc: &mut dyn ScopeOps) {
             let l = gen_layout(ctx, rem);
             let text = format!("alloc_layout {} {} 0 0 0", l.size(), l.align());
             ctx.count("alloc_layout");
-            let mode = if l.size() > 1 << 20 && mode == 2 { 0 } else { mode };
-            match sc.x_alloc_layout(l, mode) {
+            let mode_plain = if l.size() > 1 << 20 && mode_plain == 2 { 0 } else { mode_plain };
+            match sc.x_alloc_layout(l, mode_plain) {
                 Ok(ptr) => {
                     check_new_block(ctx, &text, ptr, l.size(), l);
                     let id = ctx.add_block(ptr, l.size(), l.align(), Vec::new(), None);
@@ -466,7 +470,7 @@ fn op_typed(ctx: &mut Ctx, sc: &mut dyn ScopeOps) {
             // the trait-object path has no type knowledge: it carries no hints
             let text = if dy { format!("alloc_layout {} {} 0 0 0", l.size(), l.align()) } else { format!("alloc_layout {} {} 1 1 1", l.size(), l.align()) };
             ctx.count("alloc_sized");
-            match sc.x_alloc_sized(e, mode) {
+            match sc.x_alloc_sized(e, mode_plain) {
                 Ok(ptr) => {
                     check_new_block(ctx, &text, ptr, l.size(), l);
                     let id = ctx.add_block(ptr, l.size(), l.align(), Vec::new(), None);
